@@ -141,7 +141,7 @@ def make_plan(i, master, tier):
         slow = fr.choice(['below', 'below', 'above'])
     plan = {'format': 1, 'property': PROPERTY, 'engine': 'c11', 'run_seed': seed, 'tier': tier,
             'knobs': {'mem_buff_size': g.choice([1, 64, 8192])}, 'entry': 'cli', 'status': 'PASS', 'act_mode': False,
-            'case': case, 'procs': procs, 'faults': faults, 'slow': slow, 'sweep': False}
+            'case': case, 'procs': procs, 'faults': faults, 'slow': slow, 'sweep': False, 'keep': g.random() < 0.25}
     if slow:
         _place_slow(plan, fr)
     return plan
@@ -184,9 +184,12 @@ def execute(plan, scratch):
     w.write('home/t.case', text)
     sim = kernel.Sim(plan, w)
     with patches.installed(sim):
-        res = host.run_cli(sim, ['t.case'])
+        res = host.run_cli(sim, (['--keep'] if plan.get('keep') else []) + ['t.case'])
         leftover = w.tmp_entries()
         digest = sim.digest()
+    if plan.get('keep'):
+        # --keep: the identifier is the first line of stderr; settings must not depend on the output mode
+        res['stdout'] = (res['stderr'].split('\n') or [''])[0] + '\n'
     hist = summarize(plan, sim, w, res, text, leftover, digest)
     w.destroy()
     return hist
